@@ -72,13 +72,13 @@ Section C04.
   Variable check : ann -> value -> tvenv -> outcome unit * tvenv.
   Variable consumes : ann -> value -> bool.
   Hypothesis good : pc_good pc = true.
-  (* only one-shot iterators can be consumed by a check *)
-  Hypothesis consumes_iter_only : forall a v, consumes a v = true -> has_iter v = true.
 
   Let G := good_inv pc good.
 
   (* the checker accepts v under a, whatever TypeVar bindings it is given *)
   Definition accepts (a : ann) (v : value) : Prop := forall tv, fst (check a v tv) = Ok tt.
+  (* ... and checking v against a does not exhaust it (K1: a one-shot iterator directly under typing.Iterable) *)
+  Definition accepts_intact (a : ann) (v : value) : Prop := accepts a v /\ consumes a v = false.
 
   (* the receiver of the undecorated callable: exactly one object iff the callable has a receiver parameter,
      which is an ordinary (positional-or-keyword) first parameter *)
@@ -99,7 +99,6 @@ Section C04.
     kg_one : List.length (c_recv c) <= 1;
     kg_probe : forall inst, instance_of f c = Ok inst -> clazz_probe f c inst = Ok tt;   (* K2: '@staticmethod' in the text *)
     kg_varpos : has_varpos (f_params f) = true -> c_recv c = [] \/ is_instance_method f = true;  (* a receiver the first pass does not count is checked against the annotation of *args *)
-    kg_iter : no_oneshot_iter f c = true;                        (* K1 *)
     kg_same : bound_src f ++ call_pos pc f c = twin_pos c;       (* K7, K2: the undecorated callable gets the same receiver *)
   }.
 
@@ -109,7 +108,7 @@ Section C04.
     Variable b : binding.
     Hypothesis g : kw_guards f c.
     Hypothesis Hb : twin_binding f c = Ok b.
-    Hypothesis Hsup : forall oa v, In (oa, v) (supplied_of f c b) -> exists a, oa = Some a /\ accepts a v.
+    Hypothesis Hsup : forall oa v, In (oa, v) (supplied_of f c b) -> exists a, oa = Some a /\ accepts_intact a v.
 
     Let Hsig := kg_sig f c g.
 
@@ -166,7 +165,7 @@ Section C04.
 
     (* explicit keyword for a declared parameter *)
     Lemma kw_supplied : forall p v, In p (declared f) -> is_star p = false ->
-      kw_get (p_name p) (c_kwargs c) = Some v -> exists a, p_ann p = Some a /\ accepts a v.
+      kw_get (p_name p) (c_kwargs c) = Some v -> exists a, p_ann p = Some a /\ accepts_intact a v.
     Proof.
       intros p v Hp Hs Hk. destruct declared_binding as [b0 [Hb0 [Hincl Hd]]].
       destruct (bind_go_nil _ _ _ _ Hb0) as [-> _].
@@ -182,7 +181,7 @@ Section C04.
     (* omitted but defaulted / required parameters are supplied *)
     Lemma default_supplied : forall p, In p (declared f) -> is_star p = false ->
       kw_get (p_name p) (c_kwargs c) = None ->
-      exists a d, p_ann p = Some a /\ p_default p = Some d /\ accepts a d.
+      exists a d, p_ann p = Some a /\ p_default p = Some d /\ accepts_intact a d.
     Proof.
       intros p Hp Hs Hk. destruct declared_binding as [b0 [Hb0 [Hincl Hd]]].
       destruct (bind_go_nil _ _ _ _ Hb0) as [-> Hfill].
@@ -202,7 +201,7 @@ Section C04.
     (* a keyword that no parameter takes, under **kwargs *)
     Lemma varkw_supplied : forall p k v, In p (declared f) -> is_varkw p = true ->
       kw_get k (c_kwargs c) = Some v -> mem k (kw_param_names (full_params f)) = false ->
-      exists a, p_ann p = Some a /\ accepts a v.
+      exists a, p_ann p = Some a /\ accepts_intact a v.
     Proof.
       intros p k v Hp Hvk Hk Hnot. destruct declared_binding as [b0 [Hb0 [Hincl Hd]]].
       destruct (bind_go_nil _ _ _ _ Hb0) as [-> _].
@@ -217,33 +216,15 @@ Section C04.
       eauto.
     Qed.
 
-    (* ---- no check consumes anything ---- *)
-    Lemma kw_value_no_iter : forall k v, kw_get k (c_kwargs c) = Some v -> has_iter v = false.
-    Proof.
-      intros k v H. pose proof (kg_iter f c g) as Hi. unfold no_oneshot_iter in Hi.
-      apply andb_true_iff in Hi as [Hi _]. apply andb_true_iff in Hi as [_ Hi].
-      rewrite forallb_forall in Hi. specialize (Hi (k, v) (kw_get_In _ _ _ H)). now apply negb_true_iff in Hi.
-    Qed.
-
-    Lemma default_no_iter : forall p d, In p (declared f) -> p_default p = Some d -> has_iter d = false.
-    Proof.
-      intros p d Hp Hd. destruct (declared_incl f p Hsig Hp) as [Hpf _].
-      pose proof (kg_iter f c g) as Hi. unfold no_oneshot_iter in Hi. apply andb_true_iff in Hi as [_ Hi].
-      rewrite forallb_forall in Hi. specialize (Hi p Hpf). rewrite Hd in Hi. now apply negb_true_iff in Hi.
-    Qed.
-
-    Lemma not_consumed : forall a v, has_iter v = false -> consumes a v = false.
-    Proof. intros a v H. destruct (consumes a v) eqn:E; [|reflexivity]. apply consumes_iter_only in E. congruence. Qed.
-
     Variable inst : option value.
     Hypothesis Hprobe : clazz_probe f c inst = Ok tt.
 
-    Lemma chk_accepts : forall a v s st, accepts a v -> has_iter v = false ->
+    Lemma chk_accepts : forall a v s st, accepts_intact a v ->
       exists tv', chk check consumes f c inst a v s st = Ok {| a_tv := tv'; a_cons := a_cons st; a_checked := a_checked st; a_idx := a_idx st |}.
     Proof.
-      intros a v s st Hacc Hni. unfold chk. rewrite Hprobe. specialize (Hacc (a_tv st)).
+      intros a v s st [Hacc Hni]. unfold chk. rewrite Hprobe. specialize (Hacc (a_tv st)).
       destruct (check a v (a_tv st)) as [[uu|e] tv']; simpl in Hacc; [|discriminate].
-      rewrite (not_consumed a v Hni). eauto.
+      rewrite Hni. eauto.
     Qed.
 
     (* first pass *)
@@ -261,22 +242,22 @@ Section C04.
         set (st1 := {| a_tv := a_tv st; a_cons := a_cons st; a_checked := a_checked st ++ [p_name p]; a_idx := a_idx st |}).
         destruct (kw_get (p_name p) (c_kwargs c)) as [v|] eqn:Ek.
         + destruct (kw_supplied p v Hp Hps Ek) as [a [Ha Hacc]]. rewrite Ha.
-          destruct (chk_accepts a v (SKw (p_name p)) st1 Hacc (kw_value_no_iter _ _ Ek)) as [tv1 E1]. rewrite E1. cbn [Exn.bind].
+          destruct (chk_accepts a v (SKw (p_name p)) st1 Hacc) as [tv1 E1]. rewrite E1. cbn [Exn.bind].
           destruct (IH idx {| a_tv := tv1; a_cons := a_cons st1; a_checked := a_checked st1; a_idx := a_idx st1 |} Hi' Hs') as [tv2 E2].
           rewrite E2. exists tv2. unfold st1. simpl. now rewrite <- app_assoc.
         + destruct (default_supplied p Hp Hps Ek) as [a [d [Ha [Hd Hacc]]]]. rewrite Ha, Hd.
-          destruct (chk_accepts a d (SDefault (p_name p)) st1 Hacc (default_no_iter p d Hp Hd)) as [tv1 E1]. rewrite E1. cbn [Exn.bind].
+          destruct (chk_accepts a d (SDefault (p_name p)) st1 Hacc) as [tv1 E1]. rewrite E1. cbn [Exn.bind].
           destruct (IH idx {| a_tv := tv1; a_cons := a_cons st1; a_checked := a_checked st1; a_idx := a_idx st1 |} Hi' Hs') as [tv2 E2].
           rewrite E2. exists tv2. unfold st1. simpl. now rewrite <- app_assoc.
     Qed.
 
-    Lemma chk_all_succeeds : forall a l st, (forall v s, In (v, s) l -> accepts a v /\ has_iter v = false) ->
+    Lemma chk_all_succeeds : forall a l st, (forall v s, In (v, s) l -> accepts_intact a v) ->
       exists tv', chk_all check consumes f c inst a l st = Ok {| a_tv := tv'; a_cons := a_cons st; a_checked := a_checked st; a_idx := a_idx st |}.
     Proof.
       intros a. induction l as [|[v s] l IH]; intros st H.
       - simpl. exists (a_tv st). now destruct st.
-      - simpl. destruct (H v s (or_introl eq_refl)) as [Hacc Hni].
-        destruct (chk_accepts a v s st Hacc Hni) as [tv1 E1]. rewrite E1. cbn [Exn.bind].
+      - simpl. pose proof (H v s (or_introl eq_refl)) as Hacc.
+        destruct (chk_accepts a v s st Hacc) as [tv1 E1]. rewrite E1. cbn [Exn.bind].
         destruct (IH {| a_tv := tv1; a_cons := a_cons st; a_checked := a_checked st; a_idx := a_idx st |}) as [tv2 E2]; [intros v' s' Hin'; apply (H v' s'); now right|].
         rewrite E2. eauto.
     Qed.
@@ -343,7 +324,6 @@ Section C04.
         { intros v s Hin. apply in_map_iff in Hin as [[k v0] [E Hin]]. simpl in E. inversion E; subst. clear E.
           apply filter_In in Hin as [Hin Hnot]. simpl in Hnot. apply negb_true_iff in Hnot.
           assert (Hv1 : kw_get k (c_kwargs c) = Some v) by (apply kw_get_of_In; [exact (kg_kws f c g)|assumption]).
-          split; [|eapply kw_value_no_iter; eassumption].
           destruct (varkw_supplied q k v Hq Hkq Hv1) as [a' [Ha' Hacc]]; [|congruence].
           (* k is not the name of a parameter that takes keywords *)
           apply mem_false. intros Hk. unfold kw_param_names in Hk. apply in_map_iff in Hk as [r [Hrn Hr]].
@@ -371,7 +351,7 @@ Section C04.
   (* C04: the decorated call is the undecorated call *)
   Theorem transparent : forall f c bd b r,
     kw_guards f c -> twin_binding f c = Ok b ->
-    (forall oa v, In (oa, v) (supplied_of f c b) -> exists a, oa = Some a /\ accepts a v) ->
+    (forall oa v, In (oa, v) (supplied_of f c b) -> exists a, oa = Some a /\ accepts_intact a v) ->
     f_ret f = Some r -> (forall b' cons v, bd b' cons = Ok v -> accepts r v) ->
     run pc check consumes f c bd = twin f c bd.
   Proof.
@@ -386,5 +366,72 @@ Section C04.
     destruct (bd b []) as [v|e] eqn:Ebd; [|reflexivity].
     unfold ret_value. rewrite Hret, (kg_probe f c g inst Ei).
     specialize (Hres _ _ _ Ebd (a_tv st)). destruct (check r v (a_tv st)) as [[uu|e] tv']; simpl in Hres; [reflexivity|discriminate].
+  Qed.
+
+  (* ---------------- the guards over the ground truth ---------------- *)
+  (* which real calls the guards cover, without the internals of the model: a module-level function or an instance method whose
+     receiver parameter is called `self`, decorated directly or through @pedantic_class, not hidden behind another decorator,
+     whose text does not contain "@staticmethod", called by keyword on the receiver the undecorated method would get *)
+  Record truth_guards (f : fn) (c : call) : Prop := {
+    tg_kw : c_args c = [];
+    tg_kws : distinct (kw_names c) = true;
+    tg_sig : sig_ok f = true;
+    tg_unbound : f_bound f = None;
+    tg_first : f_first_arg f = first_arg_of (f_params f) None;
+    tg_ann : forall p, In p (declared f) -> p_ann p <> None;
+    tg_text : t_staticmethod (f_text f) = false;
+    tg_recv : if f_recv f
+              then exists r rest x, f_params f = r :: rest /\ p_name r = self_name /\ p_kind r = PosOrKw
+                                    /\ c_recv c = [x] /\ c_twin_recv c = [x] /\ mem self_name (kw_names c) = false
+              else c_recv c = [] /\ c_twin_recv c = []
+                   /\ forallb (fun p => negb (Nat.eqb (p_name p) self_name)) (f_params f) = true;
+  }.
+
+  Lemma filter_all : forall {A} (g : A -> bool) l, forallb g l = true -> filter g l = l.
+  Proof. intros A g. induction l as [|x l IH]; simpl; intros H; [reflexivity|]. apply andb_true_iff in H as [H1 H2]. rewrite H1. f_equal. auto. Qed.
+
+  Lemma first_arg_in : forall ps n, first_arg_of ps None = Some n -> exists p, In p ps /\ p_name p = n.
+  Proof.
+    intros ps n H. unfold first_arg_of in H. destruct (filter is_pos ps) as [|p l] eqn:E; [discriminate|]. inversion H; subst.
+    exists p. split; [|reflexivity]. assert (Hin : In p (filter is_pos ps)) by (rewrite E; now left). now apply filter_In in Hin as [Hin _].
+  Qed.
+
+  Theorem truth_kw_guards : forall f c, truth_guards f c -> kw_guards f c.
+  Proof.
+    intros f c t. pose proof (tg_recv f c t) as Hr. pose proof (tg_unbound f c t) as Hb.
+    pose proof (tg_sig f c t) as Hsig. pose proof Hsig as Hs0. unfold sig_ok in Hs0.
+    repeat (apply andb_true_iff in Hs0; destruct Hs0 as [Hs0 ?]). rename H0 into Hnoself.
+    assert (Hfull : full_params f = f_params f) by (unfold full_params, func_params; now rewrite Hb).
+    assert (Hcm : is_class_method f = false) by (unfold is_class_method; now rewrite Hb).
+    assert (Hst : is_static_method f = false) by exact (tg_text f c t).
+    destruct (f_recv f) eqn:Erecv.
+    - destruct Hr as [r [rest [x [Hps [Hn [Hk [Hrc [Htw Hm]]]]]]]].
+      assert (Hdecl : declared f = rest) by (unfold declared; now rewrite Erecv, Hfull, Hps).
+      assert (Hinst : is_instance_method f = true).
+      { unfold is_instance_method. rewrite (tg_first f c t), Hps. unfold first_arg_of. simpl. unfold is_pos. rewrite Hk, Hn. reflexivity. }
+      constructor; try (exact (tg_kw f c t)); try (exact (tg_kws f c t)); try assumption; try (exact (tg_ann f c t)).
+      + unfold params_without_self. rewrite Hdecl, Hps. simpl. rewrite Hn. simpl. rewrite Hdecl in Hnoself. now apply filter_all.
+      + unfold recv_shape. rewrite Erecv. exists r, rest, x. rewrite Hfull, Hn. repeat split; assumption.
+      + intros _. rewrite Hrc. discriminate.
+      + intros _. rewrite (strips_first_ref pc good), Hinst. reflexivity.
+      + rewrite Hrc. simpl. lia.
+      + intros inst _. unfold clazz_probe. rewrite Hcm, Hst. now destruct inst as [[]|].
+      + intros _. now right.
+      + unfold bound_src, call_pos. rewrite Hb, (drops_args_ref pc good), Hcm, Hst. simpl. unfold wsrc, twin_pos. now rewrite Hrc, Htw.
+    - destruct Hr as [Hrc [Htw Hall]].
+      assert (Hdecl : declared f = f_params f) by (unfold declared; now rewrite Erecv, Hfull).
+      assert (Hinst : is_instance_method f = false).
+      { unfold is_instance_method. rewrite (tg_first f c t). destruct (first_arg_of (f_params f) None) as [n|] eqn:E; [|reflexivity].
+        destruct (first_arg_in _ _ E) as [p [Hp Hpn]]. rewrite forallb_forall in Hall. specialize (Hall p Hp). rewrite Hpn in Hall.
+        now apply negb_true_iff in Hall. }
+      constructor; try (exact (tg_kw f c t)); try (exact (tg_kws f c t)); try assumption; try (exact (tg_ann f c t)).
+      + unfold params_without_self. rewrite Hdecl. now apply filter_all.
+      + unfold recv_shape. now rewrite Erecv.
+      + rewrite Hinst. discriminate.
+      + intros H0. now rewrite Hrc in H0.
+      + rewrite Hrc. simpl. lia.
+      + intros inst _. unfold clazz_probe. rewrite Hcm, Hst. now destruct inst as [[]|].
+      + intros _. now left.
+      + unfold bound_src, call_pos. rewrite Hb, (drops_args_ref pc good), Hcm, Hst. simpl. unfold wsrc, twin_pos. now rewrite Hrc, Htw.
   Qed.
 End C04.
